@@ -122,6 +122,10 @@ add("C39", EX, "Every pair of partitionings (empty partitions, known and unknown
     "bounded exhaustive enumeration against a pandas reference")
 add("C40", EX, "shuffle / sort_values / set_index / drop_duplicates / unique / nunique over every partitioning (including empty partitions) of a 6-row frame with NA, string, categorical and nullable keys x output partition counts x shuffle method (tasks, disk, forced multi-stage): keys co-located, row multiset preserved, results equal pandas.", "5/C40", DF_NOTE,
     "bounded exhaustive enumeration against a pandas reference")
+add("C21", EX, "Exhaustive small-scope enumeration of every chunking x index (all slices, ints, index vectors, boolean masks as list/ndarray/dask array, 2-d index tuples over boundary-hitting alphabets) x value kind (scalar, exact, broadcast, dask with every chunking) on the real Array.__setitem__/setitem_array, compared cell by cell with the same assignment on a NumPy copy; chunks unchanged, source array untouched.", "5/C21", ARR_NOTE,
+    "bounded exhaustive differential enumeration (all chunkings x index alphabets x value kinds) against NumPy")
+add("C23", EX, "Every chunk spec, limit, dtype and previous_chunks of a small scope goes through the real normalize_chunks/auto_chunks, and every source/target chunking pair goes through the real rechunk/plan_rechunk, including forced multi-stage plans, zero-length chunks and spec targets; the statement's invariants, exact chunks and unchanged values are judged on each element.", "5/C23", ARR_NOTE + " array.chunk-size-tolerance is treated as documented configuration (auto blocks may exceed the limit by that factor when previous_chunks are given).",
+    "bounded exhaustive enumeration of chunk specs and chunking pairs with invariant and NumPy-equality oracles")
 
 
 def build():
